@@ -167,6 +167,15 @@ func runC17(r *Run) {
 						tok.Release()
 					}
 				}},
+				{"TryAcquire(cancelled ctx)", true, func(tk *Task, x int) {
+					// an abandoned request: a context that is already done is a legal argument
+					if tok, ok := s.TryAcquire(cancelledCtx); ok {
+						_ = tok.InFlightCount()
+						tok.Release()
+					} else if tok != nil {
+						_ = tok.InFlightCount()
+					}
+				}},
 				{"SetLimit", true, func(tk *Task, x int) { s.SetLimit(1 + x%4) }},
 				{"String", false, func(tk *Task, x int) {
 					if st, ok := s.(fmt.Stringer); ok {
@@ -469,3 +478,10 @@ func runC17(r *Run) {
 		r.Nontrivial = true
 	}
 }
+
+// cancelledCtx: a context that is already done (created outside any bubble: context.WithCancel involves no timers)
+var cancelledCtx = func() context.Context {
+	c, cancel := context.WithCancel(context.Background())
+	cancel()
+	return c
+}()
